@@ -758,7 +758,9 @@ pub fn eval_io_case(t: &[&str]) -> Option<String> {
                 let recv = (min_recv >= Duration::from_millis(100)) as u8;
                 // a delay of either pacing amount anywhere else (before the frame is written)
                 let other = min_pre >= Duration::from_millis(30);
-                Some(format!("send={} recv={}{}", send, recv, if other { " other" } else { "" }))
+                let reply = result.split(" | ").next().unwrap_or("").to_string();
+                let reply = reply.strip_prefix("OK ").map(|x| x.to_string()).unwrap_or(reply);
+                Some(format!("send={} recv={}{} reply={}", send, recv, if other { " other" } else { "" }, reply))
             } else {
                 Some(result)
             }
